@@ -45,7 +45,8 @@ Inductive expr :=
 | ECall (t : tname) (a : expr)     (* TaskExpression: task by NAME, one argument *)
 | EPair (a b : expr)               (* tuple containing lazy parts *)
 | EGet (i : bool) (a : expr)       (* SimpleExpression getitem: a[0] (false) / a[1] (true) *)
-| ECatch (e : expr) (r : tname).   (* catch(e, PErr, r) *)
+| ECatch (e : expr) (r : tname) (c : code).
+    (* catch(e, PErr, r): the Task VALUE r inside the expression carries the hash (code c) it was built with *)
 
 Inductive key :=
 | KTask (t : tname) (c : code) (a : val)
@@ -58,7 +59,7 @@ Definition TYPEERR : errid := 0.   (* a Python TypeError: not a PErr, never caug
 
 Definition disk := path -> stamp.
 Definition env := tname -> code.
-Definition semantics := tname -> code -> val -> disk -> outcome.
+Definition semantics := tname -> code -> val -> env -> disk -> outcome.
 
 Fixpoint val_eqb (a b : val) : bool :=
   match a, b with
@@ -75,7 +76,7 @@ Fixpoint expr_eqb (a b : expr) : bool :=
   | ECall t x, ECall u y => Nat.eqb t u && expr_eqb x y
   | EPair a1 a2, EPair b1 b2 => expr_eqb a1 b1 && expr_eqb a2 b2
   | EGet i x, EGet j y => Bool.eqb i j && expr_eqb x y
-  | ECatch x r, ECatch y q => expr_eqb x y && Nat.eqb r q
+  | ECatch x r c, ECatch y q e => expr_eqb x y && Nat.eqb r q && Nat.eqb c e
   | _, _ => false
   end.
 
@@ -96,15 +97,27 @@ Fixpoint cur_val (d : disk) (v : val) : bool :=
 
 (** [valid pv d e]: is_valid_nested of the cached value.  [pv = false] is the shipped behaviour:
     a SimpleExpression is a leaf Value whose is_valid() is the default True. *)
-Fixpoint valid (pv : bool) (d : disk) (e : expr) : bool :=
+Fixpoint valid (pv : bool) (E : env) (d : disk) (e : expr) : bool :=
   match e with
   | EVal v => cur_val d v
-  | ECall _ a => valid pv d a
-  | EPair a b => valid pv d a && valid pv d b
-  | EGet _ a => if pv then valid pv d a else true
-  | ECatch a _ => valid pv d a
+  | ECall _ a => valid pv E d a
+  | EPair a b => valid pv E d a && valid pv E d b
+  | EGet _ a => if pv then valid pv E d a else true
+  | ECatch a r c =>
+      (* Task.is_valid: hash == _calc_hash(), where _calc_hash of a deserialised Task uses the
+         CURRENT source but the RECORDED version string: a versioned Task value (odd code id) is
+         always valid, an unversioned one only while the registry has the same source *)
+      valid pv E d a && (Nat.odd c || Nat.eqb (E r) c)
   end.
-Definition cur (d : disk) (e : expr) : bool := valid true d e.
+(** every File inside the expression carries the current stamp *)
+Fixpoint cur (d : disk) (e : expr) : bool :=
+  match e with
+  | EVal v => cur_val d v
+  | ECall _ a => cur d a
+  | EPair a b => cur d a && cur d b
+  | EGet _ a => cur d a
+  | ECatch a _ _ => cur d a
+  end.
 
 (** * The backend state *)
 Definition cache := list (key * expr).
@@ -158,7 +171,7 @@ Section Eval.
 
   Definition get_cache (s : st) (k : key) : option expr :=
     let row := lookup k (s_cache s) in
-    run_chain ch row (match row with Some r => valid (v_proj_valid V) d r | None => false end).
+    run_chain ch row (match row with Some r => valid (v_proj_valid V) E d r | None => false end).
 
   Definition catch_set (k : key) (r : expr) (s : st) : st := if v_catch_cache V then upd k r s else s.
 
@@ -191,15 +204,15 @@ Section Eval.
               | Some r => eval n s1 r                       (* replay the single reduction *)
               | None =>
                   let s2 := logx s1 (t, c, va) in           (* the task body runs *)
-                  match sem t c va d with
+                  match sem t c va E d with
                   | Raise x => (Err x, s2)                  (* errors are not cached *)
                   | Ret r => eval n (upd k r s2) r          (* set_cache, then evaluate the result *)
                   end
               end
           | other => other
           end
-      | ECatch e0 r =>
-          let k := KCatch e0 r (E r) in
+      | ECatch e0 r c0 =>
+          let k := KCatch e0 r c0 in
           let recover (s1 : st) (x : errid) :=
               if Nat.eqb x TYPEERR then (Err x, s1) else
               let re := ECall r (EVal (VErr x)) in
@@ -257,7 +270,7 @@ Definition mkget (i : bool) (a : expr) : option expr :=
 Section Lang.
   Variable content : path -> stamp -> nat.   (* the stamp (size, mtime) identifies the content *)
 
-  Fixpoint eval_tm (d : disk) (arg : val) (t : tm) : option expr :=
+  Fixpoint eval_tm (E : env) (d : disk) (arg : val) (t : tm) : option expr :=
     match t with
     | TProj p => option_map EVal (get_proj p arg)
     | TNum n => Some (EVal (VNum n))
@@ -266,13 +279,13 @@ Section Lang.
                  | Some (VFile q _) => Some (EVal (VNum (content q (d q))))
                  | _ => None
                  end
-    | TPair a b => match eval_tm d arg a, eval_tm d arg b with
+    | TPair a b => match eval_tm E d arg a, eval_tm E d arg b with
                    | Some x, Some y => Some (mkpair x y)
                    | _, _ => None
                    end
-    | TCall t a => option_map (ECall t) (eval_tm d arg a)
-    | TGet i a => match eval_tm d arg a with Some x => mkget i x | None => None end
-    | TCatch e r => option_map (fun x => ECatch x r) (eval_tm d arg e)
+    | TCall t a => option_map (ECall t) (eval_tm E d arg a)
+    | TGet i a => match eval_tm E d arg a with Some x => mkget i x | None => None end
+    | TCatch e r => option_map (fun x => ECatch x r (E r)) (eval_tm E d arg e)
     end.
 
   Inductive imm := INum (n : nat) | IProj (p : proj) | IRead (p : proj).
@@ -289,8 +302,8 @@ Section Lang.
   (** [if <imm> == n: raise PErr_x]  then  [return <tm>] *)
   Record body := mkBody { b_guard : option (imm * nat * errid); b_ret : tm }.
 
-  Definition run_body (d : disk) (arg : val) (b : body) : outcome :=
-    let ret := match eval_tm d arg (b_ret b) with Some r => Ret r | None => Raise TYPEERR end in
+  Definition run_body (E : env) (d : disk) (arg : val) (b : body) : outcome :=
+    let ret := match eval_tm E d arg (b_ret b) with Some r => Ret r | None => Raise TYPEERR end in
     match b_guard b with
     | None => ret
     | Some (i, n, x) =>
@@ -301,7 +314,7 @@ Section Lang.
     end.
 
   Definition program := tname -> code -> body.
-  Definition lang_sem (P : program) : semantics := fun t c a d => run_body d a (P t c).
+  Definition lang_sem (P : program) : semantics := fun t c a E d => run_body E d a (P t c).
 End Lang.
 
 (** * Histories *)
@@ -323,7 +336,7 @@ Fixpoint assoc {A} (n : nat) (l : list (nat * A)) : option A :=
   | (m, a) :: l' => if Nat.eqb n m then Some a else assoc n l'
   end.
 Definition codes_of (h : hstate) (t : tname) : list code :=
-  match assoc t (h_codes h) with Some l => l | None => [] end.
+  match assoc t (h_codes h) with Some l => l | None => [0] end.   (* every task starts with code 0 *)
 Definition env_of (h : hstate) : env := fun t => hd 0 (codes_of h t).
 Definition disk_of (h : hstate) : disk := fun p => match assoc p (h_disk h) with Some s => s | None => 0 end.
 Definition push_code (h : hstate) (t : tname) (c : code) : hstate :=
@@ -340,7 +353,7 @@ Section Hist.
 
   (** One execution on cache [C] under the code and files of [h]. *)
   Definition run_on (h : hstate) (C : cache) (root : tm) : res * st :=
-    match eval_tm content (disk_of h) (VNum 0) root with
+    match eval_tm content (env_of h) (disk_of h) (VNum 0) root with
     | None => (Err TYPEERR, mkSt C [])
     | Some e => eval V ch (lang_sem content P) (env_of h) (disk_of h) fuel (mkSt C []) e
     end.
